@@ -19,7 +19,8 @@ RULE = (
     "dtype for default-precision arguments; vspace(tangent) == vspace(primal output) for make_jvp. No numerics, so the "
     "value tolerance plays no role. Non-trivial = argument and partner differ in kind, rank or broadcast pattern, or "
     "the argument is a scalar carrier / complex / non-default dtype; distinct by (template, features, argsel, carriers, "
-    "complex mask, dtype)."
+    "complex mask, dtype). empty:<template>: the same check with a zero-length side in the drawn shapes (zero-size arrays are ordinary "
+    "NumPy values; the result must still be a member of the argument's space)."
 )
 
 LOWPREC = ["float32", "float16", "longdouble", "complex64"]
@@ -111,6 +112,35 @@ def _body(tdef, case):
     return ok(nontrivial=nontrivial, key=key_of(inst, "space") + str(lowp), labels=labels, sample=sample)
 
 
+def _empty_body(tdef, case):
+    """The same structure check with zero-size arrays: the template's shape draws get a zero-length side (one case in two per drawn
+    shape).  Draw logic that cannot work with an empty side (an index into it, a split of it) rejects the case."""
+    import types
+
+    from ..case import Reject
+
+    def shape(self, min_rank=0, max_rank=3, max_side=3, min_side=1):
+        r = self.int(min_rank, max_rank)
+        sh = [self.int(min_side, max_side) for _ in range(r)]
+        if r and self.bool():
+            sh[self.int(0, r - 1)] = 0
+            self.notes["zero_side"] = True
+        return tuple(sh)
+
+    case.shape = types.MethodType(shape, case)
+    try:
+        out = _body(tdef, case)
+    except (ValueError, IndexError, ZeroDivisionError) as e:
+        # the template's own draw logic on an empty side (never autograd: _body catches what the differentiation calls raise)
+        raise Reject(str(e)[:80])
+    if not case.notes.get("zero_side"):
+        raise Reject("no zero-length side drawn")
+    if out.status == "fail":
+        out.bucket = (out.bucket or "") + "|empty"
+    out.labels = list(out.labels or []) + ["empty_argument"]
+    return out
+
+
 def _container_body(case):
     """Container arguments: C12's nested values and access programs; only the structure / space verdicts belong to C05."""
     from . import c12
@@ -127,6 +157,8 @@ def tests():
     out = [Test("space:" + name, partial(_body, t), quick=150 * t.weight, thorough=1200 * t.weight, shard_size=300)
            for name, t in sorted(TEMPLATES.items())]
     out.append(Test("space:containers", _container_body, quick=1500, thorough=15000, shard_size=250))
+    out += [Test("empty:" + name, partial(_empty_body, t), quick=60 * t.weight, thorough=400 * t.weight, shard_size=300)
+            for name, t in sorted(TEMPLATES.items())]
     return out
 
 
